@@ -48,7 +48,11 @@ OfType(ty) == {e \in q : e.ty = ty}
 KeyLe(a, b) == ET!Lt(a.tm, b.tm) \/ (ET!Eq(a.tm, b.tm) /\ a.ty <= b.ty)
 KeyMin(e, S) == \A f \in S : KeyLe(e, f)
 
-Observe(qq) == [len |-> Cardinality(qq)]
+\* len: what __len__ must return.  keymin: the events that are first in (time, type priority);
+\* it is a superset of MinSet (Event.__lt__ additionally orders same-type task events by task
+\* name, a convention of the code the property statement is silent about) and lets the harness
+\* tell a breach of that convention from a breach of the documented order.
+Observe(qq) == [len |-> Cardinality(qq), keymin |-> {e.id : e \in {x \in qq : KeyMin(x, qq)}}]
 
 Init == q = {} /\ floor = NoEv /\ obs = Observe(q)
 
